@@ -3,7 +3,7 @@ use std::os::unix::net::{self, SocketAddr};
 use std::sync::atomic::Ordering;
 
 #[cfg(feature = "io_cancel")]
-use crate::coroutine_impl::co_cancel_data;
+use crate::coroutine_impl::co_get_handle;
 use crate::coroutine_impl::{is_coroutine, CoroutineImpl, EventSource};
 use crate::io::sys::{co_io_result, IoData};
 use crate::io::{AsIoData, CoIo};
@@ -60,9 +60,11 @@ impl<'a> UnixListenerAccept<'a> {
 
 impl EventSource for UnixListenerAccept<'_> {
     fn subscribe(&mut self, co: CoroutineImpl) {
+        // once the coroutine is stored below another thread may resume it; it can then run to
+        // its end and drop the socket, so keep what is used after the store alive on our own
         #[cfg(feature = "io_cancel")]
-        let cancel = co_cancel_data(&co);
-        let io_data = self.io_data;
+        let handle = co_get_handle(&co);
+        let io_data = (*self.io_data).clone();
 
         // if there is no timer we don't need to call add_io_timer
         io_data.co.store(co);
@@ -75,8 +77,9 @@ impl EventSource for UnixListenerAccept<'_> {
 
         #[cfg(feature = "io_cancel")]
         {
+            let cancel = handle.get_cancel();
             // register the cancel io data
-            cancel.set_io((*io_data).clone());
+            cancel.set_io(io_data);
             // re-check the cancel status
             if cancel.is_canceled() {
                 unsafe { cancel.cancel() };
